@@ -13,11 +13,25 @@ REPO = os.environ.get('VERIF_REPO', '/repo')
 
 
 def run(props, timeout=180, only=None, confirm=True, threads=8):
+    """runs the scenario files; a file that does not compile against this tree (it calls a function whose signature a change reshaped) is
+    left out and the rest is run again - one stale scenario must not silence the others (files left out are listed under 'not_built')"""
     files = []
     for p in props:
         files += sorted(glob.glob(os.path.join(ROOT, 'witness', p, '*.rs')))
     if only is not None:
         files = [os.path.join(ROOT, f) for f in only]
+    left_out = []
+    for attempt in range(6):
+        res = _run(props, [f for f in files if os.path.relpath(f, ROOT) not in left_out], timeout, confirm, threads)
+        bad = res.pop('_not_building', None)
+        if not bad:
+            break
+        left_out += [b for b in bad if b not in left_out]
+    res['not_built'] = left_out
+    return res
+
+
+def _run(props, files, timeout, confirm, threads):
     res = {'props': props, 'files': [os.path.relpath(f, ROOT) for f in files], 'ran': 0, 'passed': 0, 'failed': [], 'inconclusive': None, 'wall_s': 0}
     if not files:
         return res
@@ -87,6 +101,11 @@ def run(props, timeout=180, only=None, confirm=True, threads=8):
         res['ran'] += len(hung)
         if not tests and not hung:
             res['inconclusive'] = 'scenarios did not build or run: ' + ' | '.join([l for l in out.split('\n') if l.startswith('error')][:3])
+            # which scenario modules do the compiler errors point into?
+            mods = set(re.findall(r'-->\s*\S*?/src/(verif_w_\d+)\.rs:', out))
+            bad = sorted({modmap[m] for m in mods if m in modmap})
+            if bad and len(bad) < len(files):
+                res['_not_building'] = bad
             return res
         res['ran'] += len(tests)
         for name, st in tests:
